@@ -74,6 +74,14 @@ Proof.
   - eexists. split; [apply in_or_app; right; left; reflexivity|reflexivity].
 Qed.
 
+Lemma Pres_defaults s t : mboxes s = [] -> Pres s (add_defaults s t).
+Proof.
+  intros E. split.
+  - rewrite E. intros m [].
+  - intros m' _. right. rewrite E. intros m [].
+  - intros _. unfold IDS, add_defaults. simpl. repeat constructor; simpl; intuition discriminate.
+Qed.
+
 Lemma Pres_trans a b c : Pres a b -> Pres b c -> Pres a c.
 Proof.
   intros [K1 F1 I1] [K2 F2 I2]. split; auto.
@@ -135,7 +143,7 @@ Qed.
 (** ---- per-thread invariant ------------------------------------------------------------------- *)
 
 Definition prog_folder (p : prog) : str :=
-  match p with PDeliver f _ => f | PAppend f _ => f | _ => [] end.
+  match p with PDeliver f _ => f | PAppend f _ => f | PFirstDeliver f _ _ => f | _ => [] end.
 Definition is_append (p : prog) : bool := match p with PAppend _ _ => true | _ => false end.
 
 Definition th_ok (s0 s : store) (th : thread) : Prop :=
@@ -256,7 +264,7 @@ Proof.
   { apply (tinv_links_same s0 c i _ (c_store c) _ T N); [apply Pres_refl|reflexivity|reflexivity|exact OK|].
     intros mb m u E j thj mj uj NE Hj Sj.
     exact (PA i j (mkThread p st) thj mb m u mj uj (fun X => NE (eq_sym X)) N Hj E Sj). }
-  destruct p as [f t|f fl|a]; destruct st; try exact NOOP.
+  destruct p as [f t|f fl|a|f t ti|ti]; destruct st; try exact NOOP.
   (* ---- PDeliver ---- *)
   - (* lookup *)
     destruct (find_name (c_store c) f) as [m|] eqn:F.
@@ -386,6 +394,89 @@ Proof.
     rewrite E in P, L. cbn [fst] in P, L.
     apply (tinv_links_same s0 c i _ s1 _ T N); [exact P|exact L|reflexivity|exact Logic.I|].
     intros mb m u X. discriminate.
+  (* ---- first contact: count, initialisation transaction ---- *)
+  - destruct (mboxes (c_store c)) eqn:MB; apply SAME; try reflexivity; try exact Logic.I; discriminate.
+  - destruct (mboxes (c_store c)) eqn:MB.
+    + apply (tinv_links_same s0 c i _ _ _ T N); [apply Pres_defaults; exact MB|reflexivity|reflexivity|exact Logic.I|].
+      intros mb m u X. discriminate.
+    + apply SAME; try reflexivity; try exact Logic.I; discriminate.
+  (* ---- PFirstDeliver: as PDeliver ---- *)
+  - (* lookup *)
+    destruct (find_name (c_store c) f) as [m|] eqn:F.
+    + apply SAME; [reflexivity| |discriminate]. unfold th_ok. simpl.
+      destruct (find_name_some _ _ _ F). exists m. auto.
+    + apply SAME; [reflexivity| |discriminate]. unfold th_ok. simpl.
+      apply find_name_has. intros H. apply find_name_has in F. auto.
+  - (* create *)
+    destruct (create_mailbox_row (c_store c) f t) as [[s1 id]|] eqn:C.
+    + destruct (Pres_create _ _ _ _ _ C) as (P & L & R & _).
+      apply (tinv_links_same s0 c i _ s1 _ T N); [exact P|exact L|reflexivity|exact R|].
+      intros mb m u E. discriminate.
+    + apply SAME; [reflexivity| |discriminate]. unfold th_ok in *. simpl in *. split; auto.
+      unfold create_mailbox_row in C. destruct f as [|a f]; auto. right.
+      destruct (find_name (c_store c) (a :: f)) as [m|] eqn:F; [|discriminate].
+      destruct (find_name_some _ _ _ F). exists m. auto.
+  - (* relookup *)
+    unfold th_ok in OK. simpl in OK. destruct OK as [O1 O2].
+    destruct (find_name (c_store c) f) as [m|] eqn:F.
+    + apply SAME; [reflexivity| |discriminate]. unfold th_ok. simpl.
+      destruct (find_name_some _ _ _ F). exists m. auto.
+    + apply SAME; [reflexivity| |discriminate]. unfold th_ok. simpl. repeat split; auto.
+      right. destruct O2 as [O2|O2]; auto. apply find_name_has in F. contradiction.
+  - (* store message *)
+    apply (tinv_links_same s0 c i _ _ _ T N); [apply Pres_mboxes_eq; reflexivity|reflexivity|reflexivity| |].
+    + unfold th_ok in *. simpl in *. destruct OK as (m & H & E). exists m. auto.
+    + intros mb' m u E. discriminate.
+  - (* allocate *)
+    unfold th_ok in OK. simpl in OK.
+    destruct (find_id (c_store c) mb) as [m|] eqn:F; [|exfalso; eapply find_id_has; eauto].
+    destruct (find_id_some _ _ _ F) as [Hm Em].
+    assert (UQ : forall m', In m' (mboxes (c_store c)) -> mb_id m' = mb -> m' = m).
+    { intros m' H' E'. eapply (NoDup_map_inj mb_id); eauto. congruence. }
+    apply (tinv_links_same s0 c i _ _ _ T N); [apply Pres_bump|reflexivity|reflexivity| |].
+    + unfold th_ok. simpl. split; [eapply has_row_pres; [apply Pres_bump|exact OK]|]. split.
+      * intros m' H' E'. apply in_map_iff in H'. destruct H' as (m0 & <- & H0).
+        rewrite bump_row_id in E'. rewrite (UQ m0 H0 E'). unfold bump_row.
+        rewrite Em, Z.eqb_refl. simpl. lia.
+      * intros l Hl El. specialize (GN l m Hl Hm). rewrite Em in GN. specialize (GN (eq_sym El)). lia.
+    + intros mb' m' u E j thj mj uj NE Hj Sj. injection E as <- _ <-.
+      pose proof (TH j thj Hj) as Oj. unfold th_ok in Oj. rewrite Sj in Oj.
+      destruct Oj as (_ & B & _). specialize (B m Hm Em). lia.
+  - (* insert *)
+    unfold th_ok in OK. simpl in OK. destruct OK as (R & B & K). cbn [prog_flags].
+    destruct (insert_link (c_store c) msg mb uid []) as [s1|] eqn:I.
+    2:{ exfalso. unfold insert_link in I. rewrite (existsb_at_uid_false (c_store c) mb uid) in I; [discriminate|].
+        intros l Hl El. auto. }
+    destruct (insert_link_shape _ _ _ _ _ _ I) as (_ & L & _ & M).
+    assert (NR : forall j thj, nth_error (replace i (mkThread (PFirstDeliver f t ti) (SOk mb msg uid)) (c_threads c)) j = Some thj ->
+                 (j = i /\ thj = mkThread (PFirstDeliver f t ti) (SOk mb msg uid)) \/ (j <> i /\ nth_error (c_threads c) j = Some thj)).
+    { intros j thj H. rewrite nth_error_replace in H. destruct (Nat.eqb_spec j i) as [->|NE].
+      - rewrite N in H. injection H as <-. auto.
+      - auto. }
+    split; cbn [c_store c_threads].
+    + repeat split.
+      * intros l m Hl Hm E. rewrite M in Hm. rewrite L in Hl. apply in_app_or in Hl.
+        destruct Hl as [Hl|[<-|[]]]; [eapply GN; eauto|]. simpl in *. apply B; auto.
+      * intros l Hl. rewrite M. rewrite L in Hl. apply in_app_or in Hl.
+        destruct Hl as [Hl|[<-|[]]]; [auto|]. simpl. exact R.
+      * unfold IDS. rewrite M. exact GI.
+    + intros f' H. destruct (NM f' H) as (m & Hm & E). exists m. rewrite M. auto.
+    + intros j thj H. destruct (NR _ _ H) as [[-> ->]|[_ H']]; [reflexivity|eauto].
+    + intros j thj H. destruct (NR _ _ H) as [[-> ->]|[NE H']]; [exact Logic.I|].
+      pose proof (TH j thj H') as Oj. unfold th_ok in *. destruct (t_st thj) eqn:Sj; auto;
+        unfold has_row, has_name in *; try rewrite M; auto.
+      destruct Oj as (Rj & Bj & Kj). repeat split; auto. intros l Hl El. rewrite L in Hl.
+        apply in_app_or in Hl. destruct Hl as [Hl|[<-|[]]]; [auto|]. simpl in *. subst mb0.
+        exact (PA i j _ thj mb msg uid _ _ (fun X => NE (eq_sym X)) N H' eq_refl Sj).
+    + intros j k thj thk mb' mj uj mk uk NE Hj Hk Sj Sk.
+      destruct (NR _ _ Hj) as [[-> ->]|[NEj Hj']]; destruct (NR _ _ Hk) as [[-> ->]|[NEk Hk']];
+        try discriminate. exact (PA j k thj thk mb' mj uj mk uk NE Hj' Hk' Sj Sk).
+  (* ---- PLogin ---- *)
+  - destruct (mboxes (c_store c)) eqn:MB; apply SAME; try reflexivity; try exact Logic.I; discriminate.
+  - destruct (mboxes (c_store c)) eqn:MB.
+    + apply (tinv_links_same s0 c i _ _ _ T N); [apply Pres_defaults; exact MB|reflexivity|reflexivity|exact Logic.I|].
+      intros mb m u X. discriminate.
+    + apply SAME; try reflexivity; try exact Logic.I; discriminate.
 Qed.
 
 Lemma run_sched_tinv s0 sch : forall c, TInv s0 c -> TInv s0 (run_sched sch c).
@@ -424,3 +515,22 @@ Proof.
   - intros l [].
   - repeat constructor; simpl; intuition discriminate.
 Qed.
+
+Lemma good_store_empty_l : good_store empty_store.
+Proof.
+  unfold good_store, NA, HOME, IDS, empty_store. simpl. repeat split.
+  - intros l m [].
+  - intros l [].
+  - constructor.
+Qed.
+
+(** first contact, regression instance of the repaired initialisation race
+    (fixes/c08-init-defaults-lock.patch): two first deliveries and a LOGIN for
+    a brand-new user all count an empty mailboxes table before any of them
+    initialises; all three succeed, five default mailboxes, UIDs 1 and 2 *)
+Definition f_ps : list prog := [PFirstDeliver INBOX 0 7; PFirstDeliver INBOX 0 8; PLogin 9].
+Definition f_sch : list tid := [0; 1; 2; 1; 0; 2; 0; 0; 0; 0; 0; 1; 1; 1; 1; 1]%nat.
+
+Lemma c08_regression_first_contact_l :
+  eval_first (f_ps, f_sch) = ([1; 1; 1], 5, 3, 2, 1).
+Proof. vm_compute. reflexivity. Qed.
